@@ -506,5 +506,28 @@ class UnicodeName(Component):
       s.out @= s.zähler
 
 
+class BlockNamedLikeSignal(Component):
+  """update blocks that have the name of a port, of a wire and of a sub-component (named blocks live in the module name space)"""
+  def construct(s):
+    s.in_ = InPort(Bits8)
+    s.out = OutPort(Bits8)
+    s.o2 = OutPort(Bits8)
+    s.cnt = Wire(Bits8)
+    s.inc = Inc(2)
+    s.inc.in_ //= s.in_
+
+    @update
+    def out():
+      s.out @= s.cnt + 1
+
+    @update_ff
+    def cnt():
+      s.cnt <<= s.in_
+
+    @update
+    def inc():
+      s.o2 @= s.inc.out
+
+
 MANGLE = {"MangleIfc": MangleIfc, "MangleList": MangleList, "MangleChild": MangleChild, "MangleStruct": MangleStruct,
-          "MangleChildList": MangleChildList, "MangleWireIfc": MangleWireIfc, "KeywordField": KeywordField, "TmpCollide": TmpCollide, "UnicodeName": UnicodeName}
+          "MangleChildList": MangleChildList, "MangleWireIfc": MangleWireIfc, "KeywordField": KeywordField, "TmpCollide": TmpCollide, "UnicodeName": UnicodeName, "BlockNamedLikeSignal": BlockNamedLikeSignal}
